@@ -97,7 +97,20 @@ func (ex *Exec) call(fr *Frame, st *State, x ssa.CallInstruction) Val {
 	}
 	if c.IsInvoke() {
 		recv := ex.get(fr, c.Value)
-		return ex.invoke(fr, st, c, recv, args, resT, x)
+		key := ifaceMethodKey(c)
+		all := append([]Val{recv}, args...)
+		ptypes := []types.Type{c.Value.Type()}
+		if sig, ok := c.Method.Type().(*types.Signature); ok {
+			for i := 0; i < sig.Params().Len(); i++ {
+				ptypes = append(ptypes, sig.Params().At(i).Type())
+			}
+		}
+		ex.fireOnCallTyped(fr, st, key, all, ptypes, nil, x, resT, true)
+		ex.inInvoke++
+		res := ex.invoke(fr, st, c, recv, args, resT, x)
+		ex.inInvoke--
+		ex.fireOnCallTyped(fr, st, key, all, ptypes, res, x, resT, false)
+		return res
 	}
 	switch v := c.Value.(type) {
 	case *ssa.Builtin:
@@ -164,9 +177,7 @@ func (ex *Exec) invoke(fr *Frame, st *State, c *ssa.CallCommon, recv Val, args [
 		}
 		ex.assumedUsed["iface "+key] = true
 		all := append([]Val{recv}, args...)
-		res := ex.applyContract(fr, st, ic, key, names, ptypes, all, resT, x)
-		ex.fireOnCallTyped(fr, st, key, all, ptypes, res, x, resT)
-		return res
+		return ex.applyContract(fr, st, ic, key, names, ptypes, all, resT, x)
 	}
 	// error.Error(), fmt.Stringer etc. on externals: pure
 	if !isRepoType(c.Value.Type()) {
@@ -194,6 +205,7 @@ func (ex *Exec) callStatic(fr *Frame, st *State, fn *ssa.Function, free []Val, a
 	}
 	if inRepo(fn) && len(fn.Blocks) > 0 && fr.depth < ex.maxInline && !ex.onStack(fn) {
 		ex.inlinedUsed[key] = true
+		ex.fireOnCall(fr, st, key, args, nil, true, x, resT)
 		res := ex.inline(fr, st, fn, free, args, resT)
 		ex.fireOnCall(fr, st, key, args, res, false, x, resT)
 		return res
@@ -535,7 +547,8 @@ func (ex *Exec) bindResult(env *Env, res Val, resT types.Type) {
 
 // fireOnCall applies the ghost updates declared by `oncall` rules.
 func (ex *Exec) fireOnCall(fr *Frame, st *State, key string, args []Val, res Val, before bool, x ssa.CallInstruction, resT types.Type) {
-	if before {
+	if ex.inInvoke > 0 && fr.isTop {
+		// an interface call dispatched statically: the invoke already fired
 		return
 	}
 	var ptypes []types.Type
@@ -546,10 +559,13 @@ func (ex *Exec) fireOnCall(fr *Frame, st *State, key string, args []Val, res Val
 			}
 		}
 	}
-	ex.fireOnCallTyped(fr, st, key, args, ptypes, res, x, resT)
+	ex.fireOnCallTyped(fr, st, key, args, ptypes, res, x, resT, before)
 }
 
-func (ex *Exec) fireOnCallTyped(fr *Frame, st *State, key string, args []Val, ptypes []types.Type, res Val, x ssa.CallInstruction, resT types.Type) {
+// fireOnCallTyped: before the call, the checks that do not mention the result
+// (arguments and state as the caller passed them); after it, the ghost
+// updates, the assumptions and the checks on the result.
+func (ex *Exec) fireOnCallTyped(fr *Frame, st *State, key string, args []Val, ptypes []types.Type, res Val, x ssa.CallInstruction, resT types.Type, before bool) {
 	if ex.contract == nil || !fr.isTop {
 		return
 	}
@@ -563,6 +579,27 @@ func (ex *Exec) fireOnCallTyped(fr *Frame, st *State, key string, args []Val, pt
 		}
 		if oc.Ord != 0 && ex.callSiteOrd(fr.fn, x) != oc.Ord {
 			continue
+		}
+		usesResult := func(c Clause) bool {
+			found := false
+			ast.Inspect(c.Expr, func(n ast.Node) bool {
+				if id, ok := n.(*ast.Ident); ok && strings.HasPrefix(id.Name, "result") {
+					found = true
+				}
+				return !found
+			})
+			return found
+		}
+		if before {
+			hasEarly := false
+			for _, ck := range oc.Checks {
+				if !usesResult(ck) {
+					hasEarly = true
+				}
+			}
+			if !hasEarly {
+				continue
+			}
 		}
 		ex.callOrd[oc.Callee]++
 		env := ex.loopEnv(fr, st)
@@ -588,9 +625,22 @@ func (ex *Exec) fireOnCallTyped(fr *Frame, st *State, key string, args []Val, pt
 		if oc.When != nil {
 			cond = ex.evalBool(*oc.When, env)
 		}
+		if before && oc.When != nil && usesResult(*oc.When) {
+			continue
+		}
 		for i, ck := range oc.Checks {
+			if usesResult(ck) == before {
+				continue
+			}
 			g := Implies(cond, ex.evalBool(ck, env))
 			ex.obligeEnv(fr, "oncall", short+":"+clauseName(ck, i), fr.blockPC, g, token.NoPos, env)
+		}
+		if before {
+			continue
+		}
+		for _, as := range oc.Assumes {
+			ex.sc.Assert(Implies(fr.blockPC, Implies(cond, ex.evalBool(as, env))))
+			ex.assumedUsed["oncall "+short+" assume "+as.Src] = true
 		}
 		// simultaneous assignment
 		nv := map[string]Val{}
